@@ -110,9 +110,33 @@ class MiniFunc:
         try:
             if self.ev._depth > 60:
                 raise Unsupported('evaluation too deep')
+            if _is_generator(self.node):
+                # a generator function: evaluated eagerly, the values it yields are returned as a list (laziness is not modelled)
+                out = []
+                saved = getattr(self.ev, 'on_yield', None)
+                self.ev.on_yield = out.append
+                try:
+                    run_function(self.ev, self.node, env)
+                finally:
+                    self.ev.on_yield = saved
+                return out
             return run_function(self.ev, self.node, env)
         finally:
             self.ev._depth -= 1
+
+
+def _is_generator(fnode):
+    if isinstance(fnode, ast.Lambda):
+        return False
+    stack = list(fnode.body)
+    while stack:
+        n = stack.pop()
+        if isinstance(n, (ast.Yield, ast.YieldFrom)):
+            return True
+        if isinstance(n, (ast.FunctionDef, ast.AsyncFunctionDef, ast.Lambda, ast.ClassDef)):
+            continue
+        stack.extend(ast.iter_child_nodes(n))
+    return False
 
 
 class Obj:
@@ -381,6 +405,32 @@ class Evaluator:
         if isinstance(f, ast.Name) and f.id in env and (isinstance(env[f.id], MiniFunc) or callable(env[f.id])) and not isinstance(env[f.id], type):
             args, kw = self._args(n, env)
             return env[f.id](*args, **kw)
+        # construction of a token / group of sqlparse.sql
+        root_ = f
+        while isinstance(root_, ast.Attribute):
+            root_ = root_.value
+        if isinstance(f, (ast.Name, ast.Attribute)) and isinstance(root_, ast.Name) and root_.id not in env:
+            try:
+                cv = self.folder.eval(f, self.mod, None, self.cls)
+            except NotConst:
+                cv = None
+            if isinstance(cv, ClsRef) and cv.cls.mod.name == 'sqlparse.sql':
+                args, kw = self._args(n, env)
+                if cv.cls.name == 'Token':
+                    if len(args) != 2 or kw:
+                        raise Unsupported('Token(...) operands')
+                    t_ = AbsToken(self.ctx.repo, ttype=args[0], value=args[1])
+                    t_.parent = None
+                    return t_
+                g_ = AbsToken(self.ctx.repo, cls=cv.cls)
+                g_.tokens = list(args[0]) if args else []
+                g_.parent = None
+                g_.is_whitespace = False
+                for k_ in g_.tokens:
+                    k_.parent = g_
+                vals_ = [getattr(k_, 'value', UNKNOWN) for k_ in g_.tokens]
+                g_.value = ''.join(vals_) if all(isinstance(v_, str) for v_ in vals_) else UNKNOWN
+                return g_
         if isinstance(f, ast.Attribute):
             try:
                 base0 = self.ev(f.value, env) if not (isinstance(f.value, ast.Name) and f.value.id not in env) else None
@@ -398,6 +448,17 @@ class Evaluator:
                     return getattr(base0, f.attr)(*args)
                 except (ValueError, IndexError) as e:
                     raise Crash(f'{type(e).__name__} in `{src(n)}`')
+        if isinstance(f, ast.Attribute) and isinstance(f.value, ast.Name) and f.value.id not in env \
+                and self.mod.imports.get(f.value.id) == ('module', 're') and f.attr in ('search', 'match', 'fullmatch'):
+            import re as _re
+            args, kw = self._args(n, env)
+            if len(args) < 2 or not isinstance(args[0], str):
+                raise Unsupported('re.search operands')
+            if args[1] is UNKNOWN:
+                raise Unknown('text of the token')
+            if not isinstance(args[1], str) or any(not isinstance(x, int) for x in args[2:]):
+                raise Unsupported('re.search operands')
+            return getattr(_re, f.attr)(args[0], args[1], *args[2:])
         if isinstance(f, ast.Attribute) and isinstance(f.value, ast.Name) and f.value.id not in env \
                 and self.mod.imports.get(f.value.id) == ('module', 're') and f.attr == 'compile':
             args, kw = self._args(n, env)
@@ -507,11 +568,32 @@ class Evaluator:
                     return getattr(base, f.attr)(*args)
                 c = getattr(base, '_cls', None)
                 m = self.ctx.repo.lookup_method(c, f.attr) if c is not None else None
-                if m is None or n.keywords or len(m.params) != len(args) + 1:
+                if m is None:
                     raise Unsupported(f'method {src(f)}')
-                e2 = dict(zip(m.params, [base] + args))
                 sub = Evaluator(self.ctx, m.mod, m.cls)
-                return run_function(sub, m.node, e2)
+                for k in ('effects', 'on_yield'):
+                    if hasattr(self, k):
+                        setattr(sub, k, getattr(self, k))
+                sub._depth = getattr(self, '_depth', 0)
+                kw = {k.arg: self.ev(k.value, env) for k in n.keywords}
+                fn = MiniFunc(sub, m.node, {}, m.short)
+                if any(isinstance(d, ast.Name) and d.id == 'staticmethod' for d in m.node.decorator_list):
+                    return fn(*args, **kw)
+                return fn(base, *args, **kw)
+            if isinstance(base, ClsRef):
+                # Class.method(...): a static method, or an unbound method given its receiver
+                m = self.ctx.repo.lookup_method(base.cls, f.attr)
+                if m is None:
+                    raise Unsupported(f'method {src(f)}')
+                sub = Evaluator(self.ctx, m.mod, m.cls)
+                for k in ('effects', 'on_yield'):
+                    if hasattr(self, k):
+                        setattr(sub, k, getattr(self, k))
+                sub._depth = getattr(self, '_depth', 0)
+                a2, kw = self._args(n, env)
+                return MiniFunc(sub, m.node, {}, m.short)(*a2, **kw)
+            if type(base).__name__ == 'Match' and f.attr in ('group', 'groups', 'start', 'end', 'span'):
+                return getattr(base, f.attr)(*[self.ev(a, env) for a in n.args])
             if isinstance(base, str) and f.attr in STR_METHODS:
                 args = [self.ev(a, env) for a in n.args]
                 if f.attr == 'join':
@@ -607,6 +689,9 @@ def run_function(ev, fnode, env, max_steps=200):
                 pass
             elif isinstance(s, ast.Expr) and isinstance(s.value, ast.Yield) and getattr(ev, 'on_yield', None) is not None:
                 ev.on_yield(ev.ev(s.value.value, env) if s.value.value is not None else None)
+            elif isinstance(s, ast.Expr) and isinstance(s.value, ast.YieldFrom) and getattr(ev, 'on_yield', None) is not None:
+                for x_ in ev.ev(s.value.value, env):
+                    ev.on_yield(x_)
             elif isinstance(s, ast.Continue):
                 raise _Continue()
             elif isinstance(s, ast.Expr) and isinstance(s.value, ast.Call) and getattr(ev, 'effects', False):
@@ -657,6 +742,9 @@ def run_function(ev, fnode, env, max_steps=200):
                     raise Crash(f'AssertionError `{src(s.test)}`')
             elif isinstance(s, ast.Expr) and isinstance(s.value, ast.Call):
                 # a call for its value only (no effects requested): evaluate, ignore
+                ev.ev(s.value, env)
+            elif isinstance(s, ast.Expr) and isinstance(s.value, (ast.ListComp, ast.GeneratorExp, ast.SetComp)) and getattr(ev, 'effects', False):
+                # `[self.process(g) for g in ...]` used as a loop
                 ev.ev(s.value, env)
             else:
                 raise Unsupported(f'statement {type(s).__name__}: {src(s)[:40]}')
